@@ -181,6 +181,18 @@ CHECKS['C15'] = (
     'the model is 150 lines of list manipulation; argument-list removal follows Python list semantics (first textually equal group)',
     '3/C15')
 
+CHECKS['C17'] = (
+    'differential testing across input forms and across interpreters with different hash seeds + interleaved parse/edit histories with identity sweep',
+    '(1) every generated source is parsed as str and as 2-chunk splits at all (short sources) or a spread of split points, '
+    'k-chunk splits with empties, lines, characters, StringIO and a real file: identical tree/text/line map/exception class; '
+    '(2) a corpus incl. every sizing prefix x delimiter x continuation is parsed by 16 (96 thorough) fresh interpreters '
+    'with different PYTHONHASHSEED: identical digests; (3) histories interleave parses (default, skip_envs, tolerance) '
+    'of several sources with heavy edits of live trees; after each step fresh default parses equal their reference trees '
+    '(from the generating syntax tree), untouched live trees are unchanged and no two trees share an expression / '
+    'argument-list / content-list object. Exploration.',
+    'hash seeds are sampled; temporary files live in a mkdtemp directory removed before exit',
+    '3/C17')
+
 PENDING = {}
 
 
